@@ -8,6 +8,7 @@
     yash-builtin/src/set.rs                     `PrintVariables`   `<name>=<value>` for identifier names
     yash-builtin/src/trap.rs                    `display_trap`     `trap -- <action> <COND>`
     yash-builtin/src/umask.rs                   `Show{symbolic:false}`  three octal digits
+    yash-builtin/src/set.rs                     `PrintOptionsMachineReadable`  `[#]set ±o <option>` (table: Generated/OptionTable)
     yash-env/src/variable/value.rs              `QuotedValue`      scalar / `(v1 v2 …)`
 
   together with the (simple) effect of the definition commands of a history on the listed state, so that
@@ -16,6 +17,7 @@
 -/
 import YashModel.Common.Proto
 import YashModel.Quote.Model
+import YashModel.Generated.OptionTable
 namespace YashModel.Quote.Listing
 open YashModel.Quote YashModel.Proto
 
@@ -37,6 +39,7 @@ structure State where
   aliases : List (List Char × List Char) := []
   traps : List (String × List Char) := []     -- condition name ↦ action (`[]` = ignore)
   umask : Nat := 0
+  opts : List (List Char × Bool) := []         -- options set explicitly (`set ±o name`), newest last
 
 /-! ### definition commands -/
 
@@ -147,6 +150,37 @@ def octal3 (n : Nat) : List Char :=
   [Char.ofNat (48 + n / 64 % 8), Char.ofNat (48 + n / 8 % 8), Char.ofNat (48 + n % 8)]
 def listUmask (s : State) : List Char := octal3 s.umask ++ ['\n']
 
+/-! ### `set +o` -/
+
+/-- `set -o name` / `set +o name` -/
+def State.setOpt (s : State) (name : List Char) (on : Bool) : State :=
+  { s with opts := s.opts.filter (·.1 ≠ name) ++ [(name, on)] }
+
+/-- `env.options.get(option)`: the explicit setting, else `OptionSet::default()` -/
+def State.optOn (s : State) (name : List Char) (dflt : Bool) : Bool :=
+  ((s.opts.find? (·.1 = name)).map (·.2)).getD dflt
+
+/-- one line of `set +o`: `{skip}set {flag}o {option}` -/
+def printOpt (name : List Char) (modifiable on : Bool) : List Char :=
+  (if modifiable then [] else ['#']) ++ "set ".toList ++ [if on then '-' else '+'] ++ "o ".toList ++ name ++ ['\n']
+
+/-- `set +o` (`PrintOptionsMachineReadable`): portable off first, every other option, portable back on last -/
+def listSetO (s : State) : List Char :=
+  let tbl := Generated.OptionTable.options
+  let pn := Generated.OptionTable.portableName
+  let pOn := s.optOn pn (((tbl.find? (·.1 = pn)).map (·.2.2)).getD false)
+  printOpt pn true false
+    ++ ((tbl.filter (·.1 ≠ pn)).map fun o => printOpt o.1 o.2.1 (s.optOn o.1 o.2.2)).flatten
+    ++ (if pOn then printOpt pn true true else [])
+
+/-- a modifiable option's line reads back as the `set` command that recreates the setting; a line for a
+    non-modifiable option is a comment -/
+def optEntryOk (name : List Char) (modifiable on : Bool) : Bool :=
+  if modifiable then
+    readBack (dropNl' (printOpt name modifiable on)) == some ["set".toList, [if on then '-' else '+', 'o'], name]
+  else readBack (dropNl' (printOpt name modifiable on)) == none
+where dropNl' (l : List Char) : List Char := if l.getLast? = some '\n' then l.dropLast else l
+
 /-! ### reading an entry back (what the listing means to a fresh shell) -/
 
 def dropNl (l : List Char) : List Char := if l.getLast? = some '\n' then l.dropLast else l
@@ -192,6 +226,8 @@ def stateVerdict (s : State) : String :=
   else if !((s.vars.filter (·.readonly)).all (varEntryOk "readonly" (fun _ => []) true)) then "FAIL:R:entry-does-not-reread"
   else if !((s.vars.filter (isName ·.name)).all setEntryOk) then "FAIL:S:entry-does-not-reread"
   else if !(s.traps.all trapEntryOk) then "FAIL:T:entry-does-not-reread"
+  else if !(Generated.OptionTable.options.all fun o => optEntryOk o.1 o.2.1 (s.optOn o.1 o.2.2)) then
+    "FAIL:O:entry-does-not-reread"
   else "ok"
 
 /-! ### driver part -/
@@ -212,7 +248,7 @@ def applyOp (s : State) (op : String) : Option State :=
     match m.toList.map (fun c => c.toNat - 48) with
     | [a, b, c] => some { s with umask := a * 64 + b * 8 + c }
     | _ => none
-  | ["o", _, _] => some s
+  | ["o", o, st] => some (s.setOpt o.toList (st = "1"))
   | [k, _, _] => if k = "f" || k = "fq" || k = "fk" then some s else none
   | _ => none
 
@@ -224,6 +260,6 @@ def runL (ops : List String) : String :=
   | none => "bad-case\t-"
   | some s =>
     let e (l : List Char) := encChars l
-    s!"A={e (listAlias s)} V={e (listTypeset s)} X={e (listExport s)} R={e (listReadonly s)} S={e (listSet s)} T={e (listTrap s)} U={e (listUmask s)}\t{stateVerdict s}"
+    s!"A={e (listAlias s)} V={e (listTypeset s)} X={e (listExport s)} R={e (listReadonly s)} S={e (listSet s)} T={e (listTrap s)} U={e (listUmask s)} O={e (listSetO s)}\t{stateVerdict s}"
 
 end YashModel.Quote.Listing
